@@ -23,49 +23,69 @@ from vlib import log, Inconclusive
 OTHER = {"C07": "C20", "C20": "C07"}
 
 
-def _model_level(prop, models, probes, timeout):
-    states = trans = 0
-    runs = []
+def _tlc_phase(prop, models, probes, families, timeout):
+    """All TLC runs of the model level and of the generation, at most 4 JVMs at a time with one worker each."""
+    import concurrent.futures
+    jobs = []
     for fam, adds, post, invs in models:
-        r = build.model(fam, adds, post, build.REPAIRED, invs, timeout=timeout)
-        vlib.tlc_must_pass(r, "model check EinoBuild(%s,%d,%d) with the repairs on" % (fam, adds, post))
-        states += r.distinct
-        trans += r.generated
-        runs.append({"family": fam, "max_adds": adds, "max_post": post, "variant": "repaired", "invariants": invs, "distinct": r.distinct,
-                     "generated": r.generated, "depth": r.depth, "wall_s": round(r.wall_s, 1), "result": "hold"})
-        log("  model %s/%d/%d repaired: %s hold, %d distinct states, %d generated, depth %d, %.0fs" % (
-            fam, adds, post, "+".join(invs), r.distinct, r.generated, r.depth, r.wall_s))
+        jobs.append(("model", (fam, adds, post, invs), lambda fam=fam, adds=adds, post=post, invs=invs:
+                     build.model(fam, adds, post, build.REPAIRED, invs, timeout=timeout, workers=1)))
     for label, fam, adds, post, fix, inv in probes:
-        r = build.model(fam, adds, post, fix, [inv], timeout=timeout)
-        if r.timed_out or (r.error is not None and r.error != "invariant:" + inv):
-            raise Inconclusive("model probe %s: TLC reported %s\n%s" % (label, r.error, r.stdout[-2000:]))
-        res = "violated" if r.error else "hold"
-        runs.append({"family": fam, "max_adds": adds, "max_post": post, "variant": "as coded (%s)" % label, "invariants": [inv],
-                     "distinct": r.distinct, "generated": r.generated, "wall_s": round(r.wall_s, 1), "result": res})
-        log("  model %s/%d/%d as coded: %s %s (%s), %.0fs" % (fam, adds, post, inv, res.upper(), label, r.wall_s))
-    return states, trans, runs
+        jobs.append(("probe", (label, fam, adds, post, inv), lambda fam=fam, adds=adds, post=post, fix=fix, inv=inv:
+                     build.model(fam, adds, post, fix, [inv], timeout=timeout, workers=1)))
+    for f in families:
+        kw = dict(f)
+        fam, adds, post = kw.pop("fam"), kw.pop("adds"), kw.pop("post")
+        kw.pop("limit", None)
+        if kw.get("simulate"):
+            kw["seed"] = vlib.SEED
+        kw.setdefault("timeout", timeout)
+        kw.setdefault("workers", 1)
+        jobs.append(("gen", f, lambda fam=fam, adds=adds, post=post, kw=kw: build.gen(fam, adds, post, **kw)))
+    with concurrent.futures.ThreadPoolExecutor(max_workers=2 if any(f.get("workers", 1) > 1 for f in families) else 4) as ex:
+        futs = [ex.submit(j[2]) for j in jobs]
+        results = [f.result() for f in futs]
+    states = trans = 0
+    runs, gens = [], []
+    for (kind, info, _), r in zip(jobs, results):
+        if kind == "model":
+            fam, adds, post, invs = info
+            vlib.tlc_must_pass(r, "model check EinoBuild(%s,%d,%d) with the repairs on" % (fam, adds, post))
+            states += r.distinct
+            trans += r.generated
+            runs.append({"family": fam, "max_adds": adds, "max_post": post, "variant": "repaired", "invariants": invs, "distinct": r.distinct,
+                         "generated": r.generated, "depth": r.depth, "wall_s": round(r.wall_s, 1), "result": "hold"})
+            log("  model %s/%d/%d repaired: %s hold, %d distinct states, %d generated, depth %d, %.0fs" % (
+                fam, adds, post, "+".join(invs), r.distinct, r.generated, r.depth, r.wall_s))
+        elif kind == "probe":
+            label, fam, adds, post, inv = info
+            if r.timed_out or (r.error is not None and r.error != "invariant:" + inv):
+                raise Inconclusive("model probe %s: TLC reported %s\n%s" % (label, r.error, r.stdout[-2000:]))
+            res = "violated" if r.error else "hold"
+            runs.append({"family": fam, "max_adds": adds, "max_post": post, "variant": "as coded (%s)" % label, "invariants": [inv],
+                         "distinct": r.distinct, "generated": r.generated, "wall_s": round(r.wall_s, 1), "result": res})
+            log("  model %s/%d/%d as coded: %s %s (%s), %.0fs" % (fam, adds, post, inv, res.upper(), label, r.wall_s))
+        else:
+            gens.append((info, r))
+    return states, trans, runs, gens
 
 
 def run_build_check(prop, tier, *, models, probes, families, limit, nontrivial, assumptions, repo=None):
     t0 = time.time()
     rnd = random.Random(vlib.SEED * 7919 + 17)
     log("[%s] tier=%s seed=%d repo=%s" % (prop, tier, vlib.SEED, repo or vlib.REPO))
-    states, trans, model_runs = _model_level(prop, models, probes, timeout=1500 if tier == "thorough" else 420)
+    states, trans, model_runs, gens = _tlc_phase(prop, models, probes, families, timeout=1500 if tier == "thorough" else 420)
     cases, gen_stats = [], []
-    for f in families:
-        kw = dict(f)
-        fam, adds, post, lim = kw.pop("fam"), kw.pop("adds"), kw.pop("post"), kw.pop("limit", None)
-        if kw.get("simulate"):
-            kw["seed"] = vlib.SEED
-        cs, run = build.gen(fam, adds, post, **kw)
+    for f, (cs, run) in gens:
+        fam, adds, post, lim, sim = f["fam"], f["adds"], f["post"], f.get("limit"), f.get("simulate")
         total = len(cs)
         if lim and len(cs) > lim:
             rnd.shuffle(cs)
             cs = cs[:lim]
-        gen_stats.append({"family": fam, "max_adds": adds, "max_post": post, "mode": "simulate" if kw.get("simulate") else "exhaustive",
+        gen_stats.append({"family": fam, "max_adds": adds, "max_post": post, "mode": "simulate" if sim else "exhaustive",
                           "sequences": total, "replayed": len(cs), "tlc_distinct": run.distinct, "wall_s": round(run.wall_s, 1)})
         log("  family %s/%d/%d%s: %d sequences (%d replayed), TLC %d distinct states, %.0fs" % (
-            fam, adds, post, " (simulated)" if kw.get("simulate") else "", total, len(cs), run.distinct, run.wall_s))
+            fam, adds, post, " (simulated)" if sim else "", total, len(cs), run.distinct, run.wall_s))
         cases += cs
     exhaustive = all(g["mode"] == "exhaustive" and g["sequences"] == g["replayed"] for g in gen_stats)
     if limit and len(cases) > limit:
@@ -118,9 +138,12 @@ def run_build_check(prop, tier, *, models, probes, families, limit, nontrivial, 
                 log("  note: rejection of %s (%s) did not reproduce on a second replay: not counted" % (cid, reason))
     verdict = vlib.Verdict(prop)
     sig_count = {}
+    tagged = []
     for cid, reason, detail, obs in confirmed:
         sig = build.classify(by_id[cid], reason, detail, obs)
         sig_count[sig] = sig_count.get(sig, 0) + 1
+        tagged.append((sig_count[sig], len(by_id[cid]["ops"]), sig, cid, reason, detail, obs))
+    for _, _, sig, cid, reason, detail, obs in sorted(tagged, key=lambda t: t[:4]):     # every signature gets a replay artefact, shortest first
         verdict.violation(sig, {"case": by_id[cid], "observations": [json.loads(x) for x in obs]}, "%s %s" % (reason, detail))
     for sig, k in sorted(sig_count.items()):
         log("  rejected: %d cases with signature %s" % (k, sig))
@@ -186,15 +209,15 @@ def c07(tier, repo=None):
     if tier == "quick":
         models = [("flow", 2, 0, ["AllOutcome", "Sound", "FrozenMaps"])]
         fams = [dict(fam="flow", adds=2, post=0), dict(fam="flowend", adds=2, post=0),
-                dict(fam="flow", adds=4, post=0, br=2, simulate="num=700", depth=60, workers=4, limit=3000),
-                dict(fam="flow2", adds=5, post=0, br=2, simulate="num=200", depth=70, workers=4, limit=3000)]
+                dict(fam="flow", adds=4, post=0, br=2, simulate="num=1200", depth=60, limit=3000),
+                dict(fam="flow2", adds=5, post=0, br=2, simulate="num=300", depth=70, limit=3000)]
         limit = 30000
     else:
         models = [("flow", 2, 0, ["AllOutcome", "Sound", "FrozenMaps"]), ("flowend", 3, 0, ["AllOutcome", "Sound", "FrozenMaps"])]
         fams = [dict(fam="flow", adds=2, post=0), dict(fam="flowend", adds=3, post=0, timeout=1500),
-                dict(fam="flow", adds=3, post=0, timeout=1500, limit=120000),
-                dict(fam="flow", adds=5, post=0, br=2, simulate="num=12000", depth=80, workers=4),
-                dict(fam="flow2", adds=6, post=0, br=2, simulate="num=15000", depth=90, workers=4)]
+                dict(fam="flow", adds=3, post=0, timeout=1700, workers=4, limit=120000),
+                dict(fam="flow", adds=5, post=0, br=2, simulate="num=40000", depth=80),
+                dict(fam="flow2", adds=6, post=0, br=2, simulate="num=20000", depth=90)]
         limit = 250000
     return run_build_check("C07", tier, models=models, probes=probes, families=fams, limit=limit, nontrivial=_accepted_and_ran, repo=repo,
                            assumptions=[
@@ -208,16 +231,19 @@ def c20(tier, repo=None):
     probes = [("D15: Compile dereferences the nil helper of an untyped pass-through", "flow", 1, 0, dict(build.REPAIRED, FixD15=False), "NoPanic"),
               ("D7: a second Compile appends to the handler maps the first runnable shares", "wf", 0, 1, dict(build.REPAIRED, FixD7=False), "FrozenMaps")]
     if tier == "quick":
-        models = [("seq", 2, 0, ["AllOutcome", "FrozenMaps"]), ("wf", 0, 2, ["AllOutcome", "FrozenMaps"]), ("flow", 1, 1, ["AllOutcome", "FrozenMaps"])]
-        fams = [dict(fam="seq", adds=2, post=0), dict(fam="wf", adds=0, post=2), dict(fam="flow", adds=1, post=1),
-                dict(fam="seqs", adds=2, post=1, simulate="num=60", depth=50, workers=4, limit=5000),
-                dict(fam="seq", adds=4, post=2, aftererr=2, simulate="num=80", depth=70, workers=4, limit=8000)]
+        models = [("seq", 2, 0, ["AllOutcome", "FrozenMaps"]), ("seqp", 2, 0, ["AllOutcome", "FrozenMaps"]), ("wf", 0, 2, ["AllOutcome", "FrozenMaps"]),
+                  ("flow", 1, 1, ["AllOutcome", "FrozenMaps"])]
+        fams = [dict(fam="seq", adds=2, post=0), dict(fam="seqp", adds=2, post=0), dict(fam="wf", adds=0, post=2), dict(fam="flow", adds=1, post=1),
+                dict(fam="seqs", adds=2, post=1, simulate="num=240", depth=50, limit=5000),
+                dict(fam="seq", adds=4, post=2, aftererr=2, simulate="num=320", depth=70, limit=8000)]
         limit = 40000
     else:
-        models = [("seq", 2, 1, ["AllOutcome", "FrozenMaps"]), ("wf", 0, 3, ["AllOutcome", "FrozenMaps"]), ("flow", 2, 1, ["AllOutcome", "FrozenMaps"])]
-        fams = [dict(fam="seq", adds=2, post=1, timeout=1500), dict(fam="wf", adds=0, post=3), dict(fam="flow", adds=2, post=1, timeout=1500),
-                dict(fam="seqs", adds=3, post=1, aftererr=2, simulate="num=15000", depth=60, workers=4),
-                dict(fam="seq", adds=5, post=2, aftererr=2, br=2, simulate="num=30000", depth=80, workers=4)]
+        models = [("seq", 2, 1, ["AllOutcome", "FrozenMaps"]), ("seqp", 2, 1, ["AllOutcome", "FrozenMaps"]), ("wf", 0, 3, ["AllOutcome", "FrozenMaps"]),
+                  ("flow", 2, 1, ["AllOutcome", "FrozenMaps"])]
+        fams = [dict(fam="seq", adds=2, post=1, timeout=1500, workers=4), dict(fam="seqp", adds=2, post=1, timeout=1500, workers=4), dict(fam="wf", adds=0, post=3),
+                dict(fam="flow", adds=2, post=1, timeout=1500, workers=4),
+                dict(fam="seqs", adds=3, post=1, aftererr=2, simulate="num=50000", depth=60),
+                dict(fam="seq", adds=5, post=2, aftererr=2, br=2, simulate="num=100000", depth=80)]
         limit = 800000
     return run_build_check("C20", tier, models=models, probes=probes, families=fams, limit=limit, nontrivial=_violation_or_post, repo=repo,
                            assumptions=[
